@@ -85,7 +85,7 @@ def solve_lp(
         iters = 0
 
     status, iters2, matrix, basis, basis_set = _phase2(matrix, basis, basis_set, m, eps, max_iter)
-    return _extract(matrix, basis, m, n, status, iters + iters2, minimize)
+    return _extract(matrix, basis, m, n, status, iters + iters2, c)
 
 
 def _phase1(matrix, basis, basis_set, m, n, eps, max_iter):
@@ -225,15 +225,14 @@ def _pivot(matrix, m, row, col, eps):
     return matrix
 
 
-def _extract(matrix, basis, m, n, status, iters, minimize):
+def _extract(matrix, basis, m, n, status, iters, c):
     solution = [0.0] * n
 
     for i in range(m):
         if basis[i] < n:
             solution[basis[i]] = matrix[i][-1]
 
-    obj = -matrix[-1][-1]
-    if not minimize:
-        obj = -obj
+    # Score the returned point itself: the tableau's objective cell accumulates the round-off of every pivot
+    obj = sum(cj * xj for cj, xj in zip(c, solution))
 
     return Result(tuple(solution), obj, iters, iters, status)
